@@ -235,12 +235,18 @@ def pmap(func, shards, acc=None, jobs=None, shard_budget=900.0):
             results[a] = b
     else:
         ctx = multiprocessing.get_context("fork")
+        trace = os.environ.get("VZ_PROGRESS")      # diagnostic only: shards done / total on stderr
+        t0 = time.time()
         with ctx.Pool(jobs) as pool:
             for st, a, b in pool.imap_unordered(_run_shard, args, chunksize=1):
                 if st == "harness":
                     pool.terminate()
                     raise HarnessError(a)
                 results[a] = b
+                if trace and (len(results) % max(1, len(args) // 20) == 0 or len(results) == len(args)):
+                    sys.stderr.write("[pmap %s] %d/%d shards %.0fs\n" % (getattr(func, "__name__", "?"), len(results),
+                                                                          len(args), time.time() - t0))
+                    sys.stderr.flush()
     for i in sorted(results):      # merge in shard order: deterministic
         acc.merge(results[i])
     return acc
